@@ -12,9 +12,18 @@ S2  every (input, expected) state of that model is executed against biotite: Kme
     threshold -> ScoreThresholdRule.similar_kmers of every k-mer, match / match_table on a table
     holding every k-mer once), table group 5 and "seltab" (reference ids, stored positions and
     given positions are uint32 labels at the limits of every width, 2^w - 1 / 2^w, 2^32 - 1).
+    Family "forms" (specs/C10/ArrayForm.tla): the MEMORY FORM of every array argument - k-mer
+    codes, positions, (n, 2) position arrays, reference ids, ignore / k-mer masks, sequence
+    codes, spacing models, score matrices, selector keys and counts - is an input dimension: TLC
+    lays each argument out as a view (buffer, offset, strides, dtype, read-only flag, list) in
+    every named stride pattern (offset slice, steps, reversed, Fortran order, column / row slices
+    of wider arrays), the driver builds exactly that memory, the answers are those of the value
+    the view denotes, and the caller's buffers must be unchanged afterwards.
 S3  seeded sessions on longer sequences, larger alphabets (incl. k-mer codes beyond 32 bit),
     more references, random masks, RandomPermutation orders are recorded and re-computed by TLC
-    (specs/C10/Trace.tla).
+    (specs/C10/Trace.tla).  Array arguments of the recorded calls are handed over in random
+    memory forms (logged as views, TLC checks that a view denotes the logged argument), and tables
+    are restored with KmerTable.from_positions from (n, 2) arrays in random forms / dtypes.
 """
 
 from __future__ import annotations
@@ -640,7 +649,241 @@ def run_seltab(inp, exp):
     return mism, calls
 
 
-RUNNERS = {"similar": run_similar, "seltab": run_seltab, "kmers": run_kmers, "mask": run_mask, "table": run_table, "mini": run_mini, "select": run_select}
+# --------------------------------------------------------------------------- memory forms
+# (specs/C10/ArrayForm.tla)  A view record [buf, off, shape, st, dt, ro, kind] printed by TLC is
+# laid out in memory exactly as it says; the expected answers are TLC's, computed from the value
+# the view denotes.
+FORM_OPS = {
+    "from_kmers": ("fk_kmers", "fk_masks", "ids"),
+    "from_kmer_selection": ("fs_pos", "fs_kmers", "ids"),
+    "from_positions": ("fp_pos",),
+    "match_kmer_selection": ("ms_pos", "ms_kmers"),
+    "count": ("count",),
+    "from_sequences": ("code", "imask", "ids", "spacing"),
+    "match": ("code", "imask"),
+    "match_rule": ("code", "matrix"),
+    "create_kmers": ("code", "spacing"),
+    "similar_kmers": ("matrix",),
+    "minimizer.select_from_kmers": ("sel_kmers",),
+    "minimizer_freq.select_from_kmers": ("sel_kmers", "freq"),
+    "syncmer.select_from_kmers": ("sel_kmers",),
+    "mincode.select_from_kmers": ("sel_kmers", "freq"),
+}
+FORM_ROLES = sorted({r for rs in FORM_OPS.values() for r in rs} | {"all"})
+FORM_TABLE_OPS = ("from_kmers", "from_kmer_selection", "match_kmer_selection", "count", "from_sequences",
+                  "match", "match_rule")
+FORM_SELECTOR_OPS = ("minimizer.select_from_kmers", "minimizer_freq.select_from_kmers",
+                     "syncmer.select_from_kmers", "mincode.select_from_kmers")
+# which entries of `views` an operation reads
+FORM_VIEW_KEYS = {
+    "from_kmers": ("fk_kmers", "fk_masks", "ids"), "from_kmer_selection": ("fs_pos", "fs_kmers", "ids"),
+    "from_positions": ("fp_pos", "fp_kmers"), "match_kmer_selection": ("ms_pos", "ms_kmers"), "count": ("count",),
+    "from_sequences": ("code", "imask", "ids", "spacing"), "match": ("qcode", "qmask"),
+    "match_rule": ("qcode", "matrix"), "create_kmers": ("qcode", "spacing"), "similar_kmers": ("matrix",),
+    "minimizer.select_from_kmers": ("sel_kmers",), "minimizer_freq.select_from_kmers": ("sel_kmers", "freq"),
+    "syncmer.select_from_kmers": ("sel_kmers",), "mincode.select_from_kmers": ("sel_kmers", "freq"),
+}
+
+
+class Laid:
+    """One argument laid out in memory: .arg is what is passed, .base the caller's buffer."""
+
+    def __init__(self, v):
+        np = _np()
+        from numpy.lib.stride_tricks import as_strided
+
+        self.view = v
+        shape = [int(x) for x in v["shape"]]
+        cells = [unlabel(c) if is_label(c) else (bool(c) if isinstance(c, bool) else int(c)) for c in v["buf"]]
+        if v["kind"] in ("list", "tuple"):
+            # Python sequences exist in the dense form only (ArrayForm: form "c", offset 0)
+            if int(v["off"]) != 0 or not _dense(shape, v["st"]):
+                raise RuntimeError(f"a {v['kind']} cannot have the form {v}")
+            val = np.array(cells, dtype=object).reshape(shape).tolist() if cells else ([] if len(shape) == 1 else [])
+            self.arg = tuple(val) if v["kind"] == "tuple" else val
+            self.base = self.orig = None
+            return
+        base = np.array(cells, dtype=np.dtype(v["dt"]))
+        if [int(x) for x in base.tolist()] != [int(c) for c in cells]:
+            raise RuntimeError(f"buffer {cells} does not fit dtype {v['dt']}")
+        off, st = int(v["off"]), [int(x) for x in v["st"]]
+        # every addressed cell lies inside the buffer (ArrayForm!InBounds, re-checked before touching memory)
+        lo = off + sum(min(0, (n - 1) * s_) for n, s_ in zip(shape, st))
+        hi = off + sum(max(0, (n - 1) * s_) for n, s_ in zip(shape, st))
+        if 0 not in shape and not (0 <= lo and hi < len(base)):
+            raise RuntimeError(f"view outside its buffer: {v}")
+        self.orig = base.copy()
+        if v["ro"]:
+            base.flags.writeable = False
+        start = base[off:] if off < len(base) else base[:0]
+        self.arg = as_strided(start, shape=shape, strides=[s_ * base.itemsize for s_ in st], writeable=not v["ro"])
+        self.base = base
+
+    def unchanged(self):
+        np = _np()
+        return self.base is None or bool(np.array_equal(self.base, self.orig))
+
+
+def _dense(shape, st):
+    st = [int(x) for x in st]
+    return st == [1] if len(shape) == 1 else st == [int(shape[1]), 1]
+
+
+def forms_subject(op, D, res, nb):
+    """The table a query is asked of: built in the ordinary way from the specification's values."""
+    A, sp = D["A"], D["sp"]
+    if op in ("match_kmer_selection", "count"):
+        ids = [r["id"] for r in D["refs"]]
+        per = {i: sorted(e for e in res["Ts"] if e[1] == i) for i in ids}
+        return build_sel(A, sp, [[e[2] for e in per[i]] for i in ids], [[e[0] for e in per[i]] for i in ids], ids, nb)
+    return build_from_sequences(A, sp, D["refs"], nb)
+
+
+def forms_call(op, D, V, res, nb, explicit_spacing=False):
+    """Execute one operation with its array arguments laid out as the views say.
+    -> ([oc, canonical observation], [Laid ...]).  The spacing model is handed over as the view
+    says only when it is under test (otherwise: None for continuous k-mers, a list else)."""
+    _, align = _mods()
+    np = _np()
+    A, sp = D["A"], D["sp"]
+    k = len(sp)
+    laid = []
+
+    def L(v):
+        x = Laid(v)
+        laid.append(x)
+        return x.arg
+
+    def spacing():
+        return L(V["spacing"][0]) if explicit_spacing else spacing_arg(sp)
+
+    def seq_of(v):
+        seq, _a = _mods()
+        s_ = seq.GeneralSequence(alphabet(A))
+        s_.code = L(v)
+        return s_
+
+    def table_kw():
+        return {"n_buckets": nb} if nb else {}
+
+    cls = table_class(nb)
+    if op == "from_kmers":
+        fn = lambda: safe_content(cls.from_kmers(  # noqa: E731
+            kmer_alphabet(A, sp), [L(v) for v in V["fk_kmers"]], ref_ids=L(V["ids"][0]),
+            masks=[L(v) for v in V["fk_masks"]], **table_kw()), A, k)
+    elif op == "from_kmer_selection":
+        fn = lambda: safe_content(cls.from_kmer_selection(  # noqa: E731
+            kmer_alphabet(A, sp), [L(v) for v in V["fs_pos"]], [L(v) for v in V["fs_kmers"]],
+            ref_ids=L(V["ids"][0]), **table_kw()), A, k)
+    elif op == "from_positions":
+        fn = lambda: safe_content(align.KmerTable.from_positions(  # noqa: E731
+            kmer_alphabet(A, sp), {int(c): L(v) for c, v in zip(V["fp_kmers"], V["fp_pos"])}), A, k)
+    elif op == "match_kmer_selection":
+        fn = lambda: _rows(forms_subject(op, D, res, nb).match_kmer_selection(  # noqa: E731
+            L(V["ms_pos"][0]), L(V["ms_kmers"][0])))
+    elif op == "count":
+        fn = lambda: [int(x) for x in forms_subject(op, D, res, nb).count(L(V["count"][0])).tolist()]  # noqa: E731
+    elif op == "from_sequences":
+        def fn():
+            kw = {"ref_ids": L(V["ids"][0]), "spacing": spacing(), "alphabet": alphabet(A)}
+            if any(V["imask"]):
+                kw["ignore_masks"] = [L(m[0]) if m else None for m in V["imask"]]
+            kw.update(table_kw())
+            return safe_content(cls.from_sequences(k, [seq_of(v) for v in V["code"]], **kw), A, k)
+    elif op == "match":
+        fn = lambda: _rows(forms_subject(op, D, res, nb).match(  # noqa: E731
+            seq_of(V["qcode"][0]), ignore_mask=L(V["qmask"][0]) if V["qmask"] else None))
+    elif op == "match_rule":
+        def fn():
+            M = V["matrix"][0]
+            n = int(M["shape"][0])
+            rule = align.ScoreThresholdRule(align.SubstitutionMatrix(alphabet(n), alphabet(n), L(M)), int(D["t"]))
+            return _rows(forms_subject(op, D, res, nb).match(seq_of(V["qcode"][0]), similarity_rule=rule))
+    elif op == "create_kmers":
+        fn = lambda: [int(x) for x in align.KmerAlphabet(alphabet(A), k, spacing()).create_kmers(  # noqa: E731
+            L(V["qcode"][0])).tolist()]
+    elif op == "similar_kmers":
+        def fn():
+            M = V["matrix"][0]
+            n = int(M["shape"][0])
+            rule = align.ScoreThresholdRule(align.SubstitutionMatrix(alphabet(n), alphabet(n), L(M)), int(D["t"]))
+            ka = kmer_alphabet(A, list(range(k)))
+            return [[int(x) for x in rule.similar_kmers(ka, c).tolist()] for c in range(A ** k)]
+    elif op in FORM_SELECTOR_OPS:
+        ka2 = kmer_alphabet(A, [0, 1])
+        x2, x3 = V["sel_kmers"]
+        if op == "minimizer.select_from_kmers":
+            fn = lambda: _sel_obs(align.MinimizerSelector(ka2, 2).select_from_kmers(L(x2)))  # noqa: E731
+        elif op == "minimizer_freq.select_from_kmers":
+            fn = lambda: _sel_obs(align.MinimizerSelector(  # noqa: E731
+                ka2, 3, align.FrequencyPermutation(ka2, L(V["freq"][0]))).select_from_kmers(L(x2)))
+        elif op == "syncmer.select_from_kmers":
+            fn = lambda: _sel_obs(align.SyncmerSelector(alphabet(A), 3, 2, None, (0,)).select_from_kmers(L(x3)))  # noqa: E731
+        else:
+            fn = lambda: _sel_obs(align.MincodeSelector(  # noqa: E731
+                ka2, 2, align.FrequencyPermutation(ka2, L(V["freq"][0]))).select_from_kmers(L(x2)))
+    else:
+        raise ValueError(op)
+    return _call(fn), laid
+
+
+def forms_expected(op, res):
+    return {"from_kmers": "Tk", "from_kmer_selection": "Ts", "from_positions": "Tp", "match_kmer_selection": "sel",
+            "count": "counts", "from_sequences": "Tq", "match": "match", "match_rule": "matchr",
+            "create_kmers": "kmers", "similar_kmers": "sim", "minimizer.select_from_kmers": "mini",
+            "minimizer_freq.select_from_kmers": "minif", "syncmer.select_from_kmers": "sync",
+            "mincode.select_from_kmers": "minc"}[op]
+
+
+def forms_agree(op, oc, want, obs):
+    """oc "ok": the call must return the specification's answer; "OkOrRejected": it may raise,
+    but an answer it returns must be the specification's."""
+    if obs[0] != "ok":
+        return oc == "OkOrRejected"
+    got = obs[1]
+    if op in ("from_kmers", "from_kmer_selection", "from_positions", "from_sequences"):
+        return got == sorted(want)
+    if op in ("match_kmer_selection", "match", "match_rule"):
+        return same_set(got, want)
+    if op == "similar_kmers":
+        return len(got) == len(want) and all(sorted(g) == sorted(w) and len(set(g)) == len(g) for g, w in zip(got, want))
+    if op in FORM_SELECTOR_OPS:
+        return sel_agree(want, obs)
+    return got == want
+
+
+def run_forms(inp, exp):
+    D, V, res, role = exp["data"], exp["views"], exp["res"], inp["role"]
+    mism, calls = [], 0
+    for op, roles in FORM_OPS.items():
+        if not (role == "all" or role in roles):
+            continue
+        if op in FORM_SELECTOR_OPS and not D["sel"]:
+            continue
+        if op in ("match",) and role == "imask" and not V["qmask"]:
+            continue
+        for nb in ((0,) + BUCKETS if op in FORM_TABLE_OPS else (0,)):
+            obs, laid = forms_call(op, D, V, res, nb, explicit_spacing=role in ("spacing", "all"))
+            calls += 1
+            want = res[forms_expected(op, res)]
+            args = {"nb": nb, "views": {key: V[key] for key in FORM_VIEW_KEYS[op]},
+                    "explicit_spacing": role in ("spacing", "all"),
+                    "Ts": res["Ts"] if op in ("match_kmer_selection", "count") else None}
+            small = {"d": inp["d"], "role": role, "w": inp["w"], "data": D}
+            if not forms_agree(op, exp["oc"], want, obs):
+                # a spacing model handed over explicitly (even the continuous one) together with an
+                # ignore mask is the input class of the known defect KmerIndex!KB_SpacedMask
+                kb = bool(op == "from_sequences" and args["explicit_spacing"] and any(V["imask"]))
+                mism.append(_mm("forms", op, small, args, {"oc": exp["oc"], "out": want}, obs, kb_spaced_mask=kb))
+            # the caller's buffers hold what they held before the call (ArrayForm!Frame)
+            changed = [x.view for x in laid if not x.unchanged()]
+            if changed:
+                mism.append(_mm("forms", op + ":argument_unchanged", small, args,
+                                [v["buf"] for v in changed], [x.base.tolist() for x in laid if not x.unchanged()]))
+    return mism, calls
+
+
+RUNNERS = {"forms": run_forms, "similar": run_similar, "seltab": run_seltab, "kmers": run_kmers, "mask": run_mask, "table": run_table, "mini": run_mini, "select": run_select}
 
 
 def warmup():
@@ -671,6 +914,8 @@ def _nontrivial(kind, inp, exp):
         return int(exp["proper"])
     if kind == "seltab":
         return int(len(exp["present"]) < len(exp["T"]))
+    if kind == "forms":
+        return int(exp["disc"])
     if kind == "mask":
         return int(0 < len(exp["kept"]) < exp["n"])
     return int(not exp["short3"])
@@ -698,6 +943,9 @@ def exec_states(item):
             ids = inp["ids"] if kind == "seltab" else [r["id"] for r in inp["refs"]]
             if max(ids) >= 2 ** 31:
                 counts["label>=2^31"] = counts.get("label>=2^31", 0) + 1
+        if kind == "forms" and exp["disc"]:
+            key = "forms:disc:" + inp["role"]
+            counts[key] = counts.get(key, 0) + 1
         nontriv += _nontrivial(kind, inp, exp)
         progress({"family": kind, "inp": inp})
         mm, c = RUNNERS[kind](inp, exp)
@@ -763,6 +1011,74 @@ def _rand_labels(rng, m):
     return out
 
 
+# ---- S3: the driver hands array arguments over in random memory forms; the view is logged with
+# abstract cells (k-mer tuples, labels, symbols, booleans) and TLC checks that it denotes the
+# logged argument (Trace!ViewsOk)
+def _rand_view(rng, value, fill, arg):
+    """Random layout of a row (list of cells; arg != "rows") or of an (n, 2) matrix (list of
+    2-lists; arg == "rows") in a buffer whose other cells hold fillers."""
+    n = len(value)
+    if arg != "rows":
+        st = rng.choice([1, 1, 2, 3, -1, -2])
+        addr = [i * st for i in range(n)]
+        shape, strides, flat = [n], [st], list(value)
+    else:
+        m = max(n, 1)
+        # C order, Fortran order, row / column steps, reversed rows / columns, Fortran order with gaps
+        s1, s2 = rng.choice([(2, 1), (2, 1), (1, m), (4, 1), (4, 2), (3, 1), (-2, 1), (2, -1), (2, 2 * m + 1)])
+        addr = [i * s1 + j * s2 for i in range(n) for j in range(2)]
+        shape, strides, flat = [n, 2], [s1, s2], [c for row in value for c in row]
+    off = -min(addr + [0]) + rng.randint(0, 2)
+    L = off + max(addr + [0]) + 1 + rng.randint(0, 2)
+    buf = [fill() for _ in range(L)]
+    for a, c in zip(addr, flat):
+        buf[off + a] = c
+    return {"arg": arg, "buf": buf, "off": off, "shape": shape, "st": strides}
+
+
+def _lay(view, dt, conc):
+    """Logged view (abstract cells) -> Laid argument with concrete cells of dtype dt."""
+    return Laid(dict(view, buf=[conc(c) for c in view["buf"]], dt=dt, ro=False, kind="ndarray"))
+
+
+def _code_dtype(A):
+    return "uint8" if A <= 256 else ("uint16" if A <= 65536 else "uint32")
+
+
+def s3_args(e, A):
+    """The array arguments of a recorded call, laid out as its logged views say
+    (plain fresh arrays for arguments without a view)."""
+    np = _np()
+    views = {v["arg"]: v for v in e.get("views", []) if "arg" in v}
+    out = {}
+    if "pos" in e:
+        out["pos"] = (_lay(views["pos"], "uint32", unlabel).arg if "pos" in views
+                      else np.array([unlabel(x) for x in e["pos"]], dtype=np.uint32))
+    if "kmers" in e:
+        out["kmers"] = (_lay(views["kmers"], "int64", lambda km: code_of(km, A)).arg if "kmers" in views
+                        else np.array([code_of(km, A) for km in e["kmers"]], dtype=np.int64))
+    if "q" in e:
+        if "q" in views:
+            seq, _ = _mods()
+            sq = seq.GeneralSequence(alphabet(A))
+            sq.code = _lay(views["q"], _code_dtype(A), int).arg
+            out["q"] = sq
+        else:
+            out["q"] = mkseq(A, e["q"])
+    if e.get("mask"):
+        out["mask"] = _lay(views["mask"], "bool", bool).arg if "mask" in views else mask_arg(e["mask"])
+    else:
+        out["mask"] = None
+    return out
+
+
+def s3_from_positions(e, A, sp):
+    _, align = _mods()
+    laid = [_lay(v, e["dt"], unlabel) for v in e["views"]]
+    t2 = align.KmerTable.from_positions(kmer_alphabet(A, sp), {code_of(en[0], A): x.arg for en, x in zip(e["entries"], laid)})
+    return _lab_cols(safe_content(t2, A, len(sp)), (1,))
+
+
 def gen_trace(item):
     from harness.tlabind.pool import progress
 
@@ -809,8 +1125,9 @@ def gen_trace(item):
         pool_kmers = [e[0] for e in subject["out"]] or [[sym() for _ in range(k)]]
         for _ in range(item["length"]):
             op = rng.choice(["match", "match", "match", "count", "lookup", "lookup", "get_kmers", "match_table",
-                             "match_sel"])
+                             "match_sel", "match_sel" if big else "from_positions"])
             e = {"op": op}
+            formed = rng.random() < 0.7      # array arguments in a random memory form / as fresh arrays
             if op == "match":
                 src = rng.choice(refs)["seq"]
                 n = rng.randint(max(1, span - 1), span + 10)
@@ -822,14 +1139,17 @@ def gen_trace(item):
                     q[at:at + len(piece)] = piece
                     q = q[:n]
                 e.update(q=q, mask=_rand_mask(rng, len(q)), rule=_rand_rule(rng, A) if rng.random() < 0.4 else [])
+                # (a boolean mask only in contiguous forms: ArrayForm!MustAccept)
+                e["views"] = [_rand_view(rng, q, lambda: sym(), "q")] if formed else []
                 progress({"family": "s3", "op": op, "inp": subject, "args": e})
-                r = _call(lambda: _lab_cols(_rows(t.match(mkseq(A, q), similarity_rule=rule_arg(e["rule"], A),
-                                                          ignore_mask=mask_arg(e["mask"]))), (1,)))
+                r = _call(lambda: (lambda a: _lab_cols(_rows(t.match(a["q"], similarity_rule=rule_arg(e["rule"], A),
+                                                                     ignore_mask=a["mask"])), (1,)))(s3_args(e, A)))
             elif op == "count":
                 kms = [rng.choice(pool_kmers) if rng.random() < 0.7 else [sym() for _ in range(k)]
                        for _ in range(rng.randint(0, 5))]
                 e.update(kmers=kms)
-                r = _call(lambda: [int(x) for x in t.count(np.array([code_of(km, A) for km in kms], dtype=np.int64)).tolist()])
+                e["views"] = [_rand_view(rng, kms, lambda: rng.choice(pool_kmers), "kmers")] if formed else []
+                r = _call(lambda: [int(x) for x in t.count(s3_args(e, A)["kmers"]).tolist()])
             elif op == "lookup":
                 km = rng.choice(pool_kmers) if rng.random() < 0.8 else [sym() for _ in range(k)]
                 e.update(kmer=km, big=bool(code_of(km, A) >= 2 ** 32), bucketed=bool(nb))
@@ -837,6 +1157,19 @@ def gen_trace(item):
                 r = _call(lambda: _lab_cols(_rows(t[code_of(km, A)]), (0,)))
             elif op == "get_kmers":
                 r = _call(lambda: [kmer_of(int(c), A, k) for c in t.get_kmers().tolist()])
+            elif op == "from_positions":
+                # a direct table restored from the explicit positions of (part of) this table, each
+                # (n, 2) array in a random memory form and one of the integer dtypes
+                kept = [km for km in sorted({tuple(x[0]) for x in subject["out"]}) if rng.random() < 0.8]
+                entries = [[list(km), [[x[1], x[2]] for x in subject["out"] if tuple(x[0]) == km]] for km in kept]
+                for en in entries:
+                    rng.shuffle(en[1])
+                e.update(entries=entries, dt=rng.choice(["uint32", "uint32", "int64", "uint64"]))
+                e["views"] = [(_rand_view(rng, en[1], lambda: rng.choice([enlabel(_rand_label(rng)), rng.randrange(40)]), "rows")
+                               if formed else {"arg": "rows", "buf": [c for row in en[1] for c in row], "off": 0,
+                                               "shape": [len(en[1]), 2], "st": [2, 1]}) for en in entries]
+                progress({"family": "s3", "op": op, "inp": subject, "args": e})
+                r = _call(lambda: s3_from_positions(e, A, sp))
             elif op == "match_table":
                 n = rng.randint(span, span + 6)
                 src = rng.choice(refs)["seq"]
@@ -852,8 +1185,9 @@ def gen_trace(item):
                 kms = [rng.choice(pool_kmers) if rng.random() < 0.7 else [sym() for _ in range(k)] for _ in range(m)]
                 pos = _rand_labels(rng, m)    # the given positions are free uint32 labels as well
                 e.update(pos=[enlabel(x) for x in pos], kmers=kms)
-                r = _call(lambda: _lab_cols(_rows(t.match_kmer_selection(
-                    np.array(pos, dtype=np.uint32), np.array([code_of(km, A) for km in kms], dtype=np.int64))), (0, 1)))
+                e["views"] = ([_rand_view(rng, e["pos"], lambda: enlabel(_rand_label(rng)), "pos"),
+                               _rand_view(rng, kms, lambda: rng.choice(pool_kmers), "kmers")] if formed else [])
+                r = _call(lambda: (lambda a: _lab_cols(_rows(t.match_kmer_selection(a["pos"], a["kmers"])), (0, 1)))(s3_args(e, A)))
             e["oc"] = r[0]
             e["out"] = r[1] if r[0] == "ok" else []
             ev.append(e)
@@ -936,13 +1270,16 @@ def classify(mm):
         fam, op = mm.get("family"), mm.get("op")
         # (1) ignore masks with spaced k-mers
         if mm.get("kb_spaced_mask") and ((fam == "mask" and op in ("from_sequences", "match"))
-                                         or (fam == "table" and op in ("build", "match"))):
-            if fam == "mask" or op == "match" or mm.get("args", {}).get("built") == "sequences":
+                                         or (fam == "table" and op in ("build", "match"))
+                                         or (fam == "forms" and op == "from_sequences")):
+            if fam in ("mask", "forms") or op == "match" or mm.get("args", {}).get("built") == "sequences":
                 return KF_SPACED_MASK
         # (3) MincodeSelector returns a boolean mask in place of the positions; the mask marks
         #     exactly the expected positions and the k-mers are right
-        if fam == "select" and op == "mincode.select":
+        if (fam == "select" and op == "mincode.select") or (fam == "forms" and op == "mincode.select_from_kmers"):
             e, o = mm.get("expected", {}), mm.get("observed", [None, None])
+            if fam == "forms":      # {"oc": must-accept class, "out": the selector's answer}
+                e = e.get("out", {})
             if (e.get("oc") == "ok" and o[0] == "ok" and isinstance(o[1], dict) and "mask" in o[1]
                     and [i for i, b in enumerate(o[1]["mask"]) if b] == e["out"]["pos"]
                     and o[1]["kmers"] == e["out"]["kmers"]):
@@ -997,6 +1334,8 @@ def run(ctx):
         "Dom_Rule: ScoreThresholdRule over a symmetric integer matrix on the table's alphabet or on a larger alphabet that extends it (no assumption on the entries: the row maximum may lie off the diagonal); other SimilarityRule classes are not modelled",
         "Dom_Label: reference ids, positions stored through from_kmer_selection / from_positions and positions given to match_kmer_selection are integers 0..2^32-1 (the documented uint32); positions of k-mers taken from sequences are small",
         "Dom_Selection: (position, k-mer) pairs given to match_kmer_selection are distinct",
+        "ArrayForm!MustAccept: an ndarray argument of a documented dtype that is writable has to be accepted whatever its strides / offset / order; for read-only buffers, dtypes the documentation does not name, Python lists where an ndarray is documented and non-contiguous boolean masks (the code hands masks over as bytes through the buffer protocol) an exception is accepted, a returned answer must still be the right one (OkOrRejected); reference ids and spacing models are 'iterables of int' (any sequence kind / integer dtype must be accepted)",
+        "memory forms: the views are those named in ArrayForm (offset slice, steps 2 / 3, reversed, reversed with step, Fortran order, row / column steps, reversed rows / columns, block of a wider array) with legal filler values in the unaddressed cells; no overlapping (stride 0 / broadcast) views",
         "sequences shorter than the k-mer span: an exception or an empty result are both accepted",
         "row order of match results is not compared (the property speaks of the set of triples)",
         "table equality (==) is only required after pickling; it is order-sensitive in the code and not part of the property",
@@ -1006,7 +1345,8 @@ def run(ctx):
     ]
     ctx.cov["rule"] = ("non-trivial = table with >= 2 entries and a repeated k-mer; minimizer row where some but not "
                        "all windows share their minimizer; mask that drops some but not all k-mers; sequence with >= 2 k-mers; "
-                       "score rule under which some k-mer has a proper non-empty neighbourhood")
+                       "score rule under which some k-mer has a proper non-empty neighbourhood; forms case in which "
+                       "a varied view tells its value from a dense read of its cells (ArrayForm!Discriminates)")
     d = tlc.scratch_dir("c10")
     prefix = os.path.join(d, "states")
     cfg = "MC.cfg" if quick else "MC_thorough.cfg"
@@ -1027,6 +1367,11 @@ def run(ctx):
         ctx.nontrivial += r.get("nontrivial", 0)
         for k, v in r.get("kinds", {}).items():
             kinds[k] = kinds.get(k, 0) + v
+    disc = {k[len("forms:disc:"):]: kinds.pop(k) for k in sorted(kinds) if k.startswith("forms:disc:")}
+    ctx.cov["s2_forms_states_discriminating_per_parameter"] = disc
+    quiet = sorted(set(FORM_ROLES) - set(disc))
+    if quiet:
+        raise Vacuity(f"forms family: no view that tells its value from a dense read of its cells was executed for {quiet}")
     wild = kinds.pop("similar:wildcard", 0)
     biglab = kinds.pop("label>=2^31", 0)
     ctx.cov["s2_states_per_family"] = kinds
@@ -1078,6 +1423,12 @@ def run(ctx):
         for e in t:
             ops[e["op"]] = ops.get(e["op"], 0) + 1
     ctx.cov["s3_events_per_op"] = ops
+    ctx.cov["s3_calls_with_arrays_in_a_strided_or_offset_form"] = sum(
+        1 for t in traces for e in t
+        if any(v["off"] != 0 or not _dense(v["shape"], v["st"]) for v in e.get("views", [])))
+    ctx.cov["s3_from_positions_calls"] = ops.get("from_positions", 0)
+    if not ctx.cov["s3_calls_with_arrays_in_a_strided_or_offset_form"]:
+        raise Vacuity("S3: no recorded call received an array in a non-contiguous or offset memory form")
     ctx.cov["s3_big_alphabet_lookups"] = sum(1 for t in traces for e in t if e["op"] == "lookup" and e.get("big"))
     ctx.cov["s3_tables_with_id_ge_2^31"] = sum(1 for t in traces if t[0]["op"] == "table"
                                                and any(unlabel(r["id"]) >= 2 ** 31 for r in t[0]["refs"]))
@@ -1165,6 +1516,17 @@ def replay(record):
                 return {"observed": t[0], "expected": "ok", "mismatch": t[0] != "ok"}
             obs = table_query(t[1], A, sp, args["nb"], op, args)
             return {"observed": obs, "expected": exp, "mismatch": not query_agrees(op, exp, obs)}
+        if fam == "forms":
+            D = inp["data"]
+            real_op = op.split(":")[0]
+            V = dict(args["views"])
+            obs, laid = forms_call(real_op, D, V, {"Ts": args.get("Ts")}, args["nb"],
+                                   explicit_spacing=args.get("explicit_spacing", False))
+            if op.endswith(":argument_unchanged"):
+                changed = [x.base.tolist() for x in laid if not x.unchanged()]
+                return {"observed": changed, "expected": "buffers unchanged", "mismatch": bool(changed)}
+            return {"observed": obs, "expected": exp,
+                    "mismatch": not forms_agree(real_op, exp["oc"], delabel(exp["out"]), obs)}
         if fam == "seltab":
             A, k = inp["A"], inp["k"]
             sp = list(range(k))
@@ -1225,6 +1587,20 @@ def _replay_event(record):
         if t[0] != "ok":
             return {"error": f"table cannot be built: {t}", "mismatch": True}
         op = {"match_sel": "match_kmer_selection"}.get(e["op"], e["op"])
+        if op == "from_positions":
+            obs = _call(lambda: delabel(s3_from_positions(e, A, sp)))
+            return {"observed": obs, "expected": eout, "mismatch": obs[0] != "ok" or obs[1] != sorted(eout)}
+        if e.get("views") and op in ("match", "count", "match_kmer_selection"):
+            # the arguments in the recorded memory form
+            if op == "match":
+                obs = _call(lambda: (lambda a: _rows(t[1].match(a["q"], similarity_rule=rule_arg(e.get("rule", []), A),
+                                                                ignore_mask=a["mask"])))(s3_args(e, A)))
+            elif op == "count":
+                obs = _call(lambda: [int(x) for x in t[1].count(s3_args(e, A)["kmers"]).tolist()])
+            else:
+                obs = _call(lambda: (lambda a: _rows(t[1].match_kmer_selection(a["pos"], a["kmers"])))(s3_args(e, A)))
+            bad = (not (obs[0] == "Rejected" or obs[1] == [])) if eoc == "RejectedOrEmpty" else not query_agrees(op, eout, obs)
+            return {"observed": obs, "expected": [eoc, eout], "mismatch": bad}
         args = dict(e, rule_spec=e.get("rule", []))
         if op == "get_kmers":
             obs = _call(lambda: [kmer_of(int(c), A, k) for c in t[1].get_kmers().tolist()])
@@ -1256,7 +1632,7 @@ def _replay_event(record):
 
 
 MANIFEST = {
-    "technique": "TLA+ specification of k-mer decomposition, the abstract k-mer table with its bucket/merge/pickle refinement, similarity neighbourhoods (exact for every symmetric score matrix), uint32 label transparency of ids/positions, and the minimizer/syncmer/mincode selectors (specs/C10), model-checked by TLC; every TLC state (input, expected) executed against KmerAlphabet/KmerTable/BucketKmerTable/selectors; recorded sessions re-computed by TLC",
-    "level_text": "TLC enumerates all sequences over 2-3 symbols (length <=6/4) under 8 spacing models, all ignore masks up to length 6, ~1,300 small reference sets (with masks, two references, k=2/3, spaced models) each with ~40 queries (masks, two score-threshold rules), all key rows of length <=5 (7 thorough) over 4 values with windows 2-4 and all short sequences for the selectors; every symmetric score matrix over small value sets (incl. rows whose maximum lies off the diagonal, matrices over a larger alphabet) with every threshold, and tables whose reference ids / stored positions / given positions are the uint32 labels at the limits of every width (0, 2^w-1, 2^w for w=7,8,15,16,31, 2^32-1); it checks rolling codes, k-mer masks, branch-and-bound neighbourhoods, every query on bucketed/merged/pickled layouts against the set definition, van Herk = leftmost window minimum and the syncmer route. Every state is then run against the real classes: six builders x direct and 1/2/3/7 buckets, match/match_table/match_kmer_selection/count/lookup/get_kmers/iteration/pickle, four selectors with and without FrequencyPermutation. Longer sequences, 2-5 symbol and 2000-70000 symbol alphabets (k-mer codes beyond 2^32), up to 4 references with random uint32 ids, random masks/rules (also not diagonally dominant)/buckets and RandomPermutation orders are covered by recorded sessions validated by TLC.",
+    "technique": "TLA+ specification of k-mer decomposition, the abstract k-mer table with its bucket/merge/pickle refinement, similarity neighbourhoods (exact for every symmetric score matrix), uint32 label transparency of ids/positions, the memory form of array arguments (views: buffer, offset, strides, dtype, flags - the answer is a function of the value a view denotes), and the minimizer/syncmer/mincode selectors (specs/C10), model-checked by TLC; every TLC state (input, expected) executed against KmerAlphabet/KmerTable/BucketKmerTable/selectors; recorded sessions re-computed by TLC",
+    "level_text": "TLC enumerates all sequences over 2-3 symbols (length <=6/4) under 8 spacing models, all ignore masks up to length 6, ~1,300 small reference sets (with masks, two references, k=2/3, spaced models) each with ~40 queries (masks, two score-threshold rules), all key rows of length <=5 (7 thorough) over 4 values with windows 2-4 and all short sequences for the selectors; every symmetric score matrix over small value sets (incl. rows whose maximum lies off the diagonal, matrices over a larger alphabet) with every threshold, and tables whose reference ids / stored positions / given positions are the uint32 labels at the limits of every width (0, 2^w-1, 2^w for w=7,8,15,16,31, 2^32-1), and every array parameter of the API in every named memory form (offset / stepped / reversed / Fortran-ordered / row- and column-sliced views, other integer dtypes, read-only buffers, lists), singly and all at once; it checks rolling codes, k-mer masks, branch-and-bound neighbourhoods, every query on bucketed/merged/pickled layouts against the set definition, van Herk = leftmost window minimum and the syncmer route. Every state is then run against the real classes: six builders x direct and 1/2/3/7 buckets, match/match_table/match_kmer_selection/count/lookup/get_kmers/iteration/pickle, four selectors with and without FrequencyPermutation. Longer sequences, 2-5 symbol and 2000-70000 symbol alphabets (k-mer codes beyond 2^32), up to 4 references with random uint32 ids, random masks/rules (also not diagonally dominant)/buckets and RandomPermutation orders, array arguments in random strided layouts and tables restored by from_positions from (n,2) arrays in random layouts are covered by recorded sessions validated by TLC.",
     "level_note": "Bounded model checking plus conformance on recorded executions, not proof. Similarity rules other than ScoreThresholdRule, non-integer compression factors, the 64-bit LCG of RandomPermutation (only the order it yields), row order of matches and table equality beyond pickling are not decided. Tables with repeated reference ids (bags) are outside the domain. Three defects in .pyx files are listed known findings (Cython is unavailable).",
 }
